@@ -56,6 +56,7 @@ type Plan struct {
 	Mask  uint64 `json:"mask,omitempty"`
 	Extra []int  `json:"extra,omitempty"`
 	Pan   int    `json:"pan,omitempty"`
+	Nest  int    `json:"nest,omitempty"`
 }
 
 // Op is one concrete operation of a case.
@@ -156,7 +157,7 @@ func (r *Runner) exec(op *Op) (o obs) {
 	ctx := context.Background()
 	for i := range op.Plans {
 		p := op.Plans[i]
-		e.plans[i] = loadPlan{Out: p.Out, Shape: p.Shape, Mask: p.Mask, Extra: p.Extra, PanicOf: p.Pan}
+		e.plans[i] = loadPlan{Out: p.Out, Shape: p.Shape, Mask: p.Mask, Extra: p.Extra, PanicOf: p.Pan, Nested: p.Nest}
 	}
 	defer func() {
 		if p := recover(); p != nil {
@@ -1255,8 +1256,8 @@ func (r *Runner) audit(op *Op) {
 
 func (r *Runner) checkStats(pre *preView) {
 	m := r.M
-	if m.opHits != pre.expHits || m.opMisses != pre.expMisses {
-		m.fail("stats", "%s recorded hits=%d misses=%d, the model counts hits=%d misses=%d", m.op, m.opHits, m.opMisses, pre.expHits, pre.expMisses)
+	if m.opHits != pre.expHits+m.nestHits || m.opMisses != pre.expMisses+m.nestMisses {
+		m.fail("stats", "%s recorded hits=%d misses=%d, the model counts hits=%d misses=%d", m.op, m.opHits, m.opMisses, pre.expHits+m.nestHits, pre.expMisses+m.nestMisses)
 		return
 	}
 	s := r.Env.Cache.Stats()
